@@ -20,16 +20,18 @@ import (
 )
 
 type c10Site struct {
-	File string `json:"file"`
-	Func string `json:"func"`
-	Kind string `json:"kind"` // panic | assert | index
-	Expr string `json:"expr"`
+	File  string `json:"file"`
+	Func  string `json:"func"`
+	Kind  string `json:"kind"` // panic | assert | index
+	Expr  string `json:"expr"`
+	Guard string `json:"guard,omitempty"` // index sites: condition of the innermost enclosing `if` (then-branch) that tests a len(...)
 }
 
 type c10Facts struct {
 	PanicSites        []c10Site `json:"panicSites"`
 	ParserConstructs  []string  `json:"parserConstructionSites"`
 	JSONDecoderPtrMap []string  `json:"jsonDecoderPointerContainers"` // map/slice-of-pointer types in the JSON policy codec (nil-able entries)
+	JSONNilGuards     []string  `json:"jsonDecoderNilGuards"`         // `for _, v := range X { if v == nil { return … } … }` in the JSON policy decoders
 }
 
 var c10Dirs = []string{".", "ast", "types", "internal/eval", "internal/json", "internal/parser", "internal/extensions", "internal/rust", "internal/mapset",
@@ -84,7 +86,13 @@ func c10Collect() c10Facts {
 					}
 					return true
 				})
+				var stack []ast.Node
 				ast.Inspect(fd.Body, func(n ast.Node) bool {
+					if n == nil {
+						stack = stack[:len(stack)-1]
+						return true
+					}
+					stack = append(stack, n)
 					switch v := n.(type) {
 					case *ast.CallExpr:
 						if id, ok := v.Fun.(*ast.Ident); ok && id.Name == "panic" {
@@ -104,7 +112,15 @@ func c10Collect() c10Facts {
 							if sel, ok := v.X.(*ast.SelectorExpr); ok {
 								switch sel.Sel.Name {
 								case "Args", "Elements", "Entities", "Conditions", "comps":
-									out.PanicSites = append(out.PanicSites, c10Site{File: rel, Func: fn, Kind: "index", Expr: exprString(v.X) + "[" + bl.Value + "]"})
+									guard := ""
+									for i := len(stack) - 1; i >= 0 && guard == ""; i-- {
+										if is, ok := stack[i].(*ast.IfStmt); ok && is.Body.Pos() <= v.Pos() && v.End() <= is.Body.End() {
+											if c := exprString(is.Cond); strings.Contains(c, "len(") {
+												guard = c
+											}
+										}
+									}
+									out.PanicSites = append(out.PanicSites, c10Site{File: rel, Func: fn, Kind: "index", Expr: exprString(v.X) + "[" + bl.Value + "]", Guard: guard})
 								}
 							}
 						}
@@ -194,6 +210,40 @@ func c10Collect() c10Facts {
 		})
 	}
 	sort.Strings(out.JSONDecoderPtrMap)
+
+	// nil guards of the JSON policy decoders: a `range` loop whose first statement returns when the element is nil
+	for _, rel := range []string{"internal/json/json_unmarshal.go", "policy_set.go"} {
+		f := parseFile(rel)
+		if f == nil {
+			continue
+		}
+		for _, decl := range f.Decls {
+			fd, ok := decl.(*ast.FuncDecl)
+			if !ok || fd.Body == nil {
+				continue
+			}
+			fn := c10FuncName(fd)
+			ast.Inspect(fd.Body, func(n ast.Node) bool {
+				rs, ok := n.(*ast.RangeStmt)
+				if !ok || rs.Value == nil || len(rs.Body.List) == 0 {
+					return true
+				}
+				is, ok := rs.Body.List[0].(*ast.IfStmt)
+				if !ok || is.Init != nil || len(is.Body.List) == 0 {
+					return true
+				}
+				be, ok := is.Cond.(*ast.BinaryExpr)
+				if !ok || be.Op != token.EQL || exprString(be.X) != exprString(rs.Value) || exprString(be.Y) != "nil" {
+					return true
+				}
+				if _, ok := is.Body.List[len(is.Body.List)-1].(*ast.ReturnStmt); ok {
+					out.JSONNilGuards = append(out.JSONNilGuards, rel+": "+fn+": range "+exprString(rs.X)+": "+exprString(is.Cond)+" returns")
+				}
+				return true
+			})
+		}
+	}
+	sort.Strings(out.JSONNilGuards)
 	return out
 }
 
